@@ -423,7 +423,10 @@ def c12(run):
                              "empty one, degenerate point / horizontal / vertical ones, through every Envelope method; random lattice "
                              "geometries of every type with empty members: Envelope(), six re-representations, members, Union"}
     run.model_check("MC_Envelope", cfg=tier_n(run, "MC_Envelope.cfg", "MC_Envelope_thorough.cfg"), timeout=1800)
-    family_enumerated(run, "envelope", "Gen_Envelope", "Trace_Envelope", gen_cfg=tier_n(run, "Gen_Envelope.cfg", "Gen_Envelope_thorough.cfg"))
+    # every enumerated pair / triple at one of four exact scales (1, 2^-30, 2^-10, 2^20): interval arithmetic does not
+    # depend on the unit, so the specification's integers are the same
+    family_enumerated(run, "envelope", "Gen_Envelope", "Trace_Envelope", gen_cfg=tier_n(run, "Gen_Envelope.cfg", "Gen_Envelope_thorough.cfg"),
+                      conv=lambda c, i: dict(c, se=[0, -30, -10, 20][i % 4]))
     run.exhaustive = True
     shapes_stage(run, "envelope", "Trace_Envelope", lambda c, i: [{"kind": "geom", "wa": c["wa"], "wb": "POINT(1 1)"}])
     family_random(run, "envelope", "Trace_Envelope", tier_n(run, 5000, 600000))
